@@ -20,6 +20,7 @@ type Engine struct {
 	Pkgs  map[string]*ssa.Package
 	Stubs map[string]*ssa.Function // full callee name -> replacement function
 
+	live    map[*ssa.Function]*liveInfo
 	mu      sync.Mutex
 	regIdx  map[*ssa.Function]map[ssa.Value]int
 	nregs   map[*ssa.Function]int
@@ -39,6 +40,7 @@ func NewEngine(prog *ssa.Program) *Engine {
 	return &Engine{
 		Prog: prog, Pkgs: map[string]*ssa.Package{}, Stubs: map[string]*ssa.Function{},
 		regIdx: map[*ssa.Function]map[ssa.Value]int{}, nregs: map[*ssa.Function]int{},
+		live: map[*ssa.Function]*liveInfo{},
 		entered: map[string]bool{}, LoopBound: 12, MaxSteps: 400000, MaxDepth: 64,
 		DenyPkgs: map[string]bool{
 			"fmt": true, "log": true, "os": true, "reflect": true, "runtime": true, "time": true,
@@ -197,6 +199,12 @@ type State struct {
 	PanicOK bool // harness said a panic is acceptable from here on
 	Cover   map[string]bool // labels of verifReach points hit on this path
 	Known   map[int64]bool  // atoms (term ids) whose truth the path condition fixes
+	// partial-order mode
+	Dirty   map[int]bool   // prologue objects with thread-local (non-shared) writes
+	Spawned map[string]int // closure key -> spawns so far on this path
+	POLast  *POEvent
+	Resume  *poResume
+	POThreads []POThreadSpec
 	// results for the harness
 	Result []Value
 }
@@ -235,6 +243,19 @@ func (st *State) Fork() *State {
 	if st.Panic != nil {
 		p := *st.Panic
 		n.Panic = &p
+	}
+	n.POThreads = append([]POThreadSpec(nil), st.POThreads...)
+	if st.Dirty != nil {
+		n.Dirty = make(map[int]bool, len(st.Dirty))
+		for k, v := range st.Dirty {
+			n.Dirty[k] = v
+		}
+	}
+	if st.Spawned != nil {
+		n.Spawned = make(map[string]int, len(st.Spawned))
+		for k, v := range st.Spawned {
+			n.Spawned[k] = v
+		}
 	}
 	n.Known = make(map[int64]bool, len(st.Known)+8)
 	for k, v := range st.Known {
@@ -356,4 +377,11 @@ func (st *State) History() string {
 		sb.WriteByte(' ')
 	}
 	return strings.TrimSpace(sb.String())
+}
+
+
+type POThreadSpec struct {
+	Name  string
+	Fn    Func
+	Final bool
 }
